@@ -13,6 +13,7 @@ from __future__ import annotations
 
 import math
 import cmath
+import time
 from fractions import Fraction
 
 ATOL = 1e-11
@@ -22,6 +23,14 @@ F1 = Fraction(1)
 
 class KsymError(Exception):
     """Front-end / interpreter cannot handle a construct (harness error)."""
+
+
+class BudgetExceeded(Exception):
+    """Polynomial size / time budget of one case exceeded (reported as outside, never as held)."""
+
+
+DEADLINE = [None]  # wall-clock deadline of the current case (set by the driver)
+MAX_PRODUCT = 3_000_000  # len(a)*len(b) above which a single product is refused
 
 
 def frac(x) -> Fraction:
@@ -501,6 +510,12 @@ class Poly:
                 if cb == 1:
                     return Poly(dict(a), self.ctx)
                 return Poly({m: c * cb for m, c in a.items()}, self.ctx)
+        work = len(a) * len(b)
+        if work > 20000:
+            if work > MAX_PRODUCT:
+                raise BudgetExceeded(f"product of {len(a)} x {len(b)} monomials")
+            if DEADLINE[0] is not None and time.time() > DEADLINE[0]:
+                raise BudgetExceeded("time budget of the case")
         bs = self.ctx.boolset
         r: dict = {}
         for mb, cb in b.items():
